@@ -2,6 +2,7 @@
 import os
 import re
 import shutil
+import zlib
 
 from .core import run, Inconclusive
 from .datadir import Placement, write_datadir, ACTIVE
@@ -27,7 +28,21 @@ def cli(binary, datadir, coin, callback, dump=None, start=None, end=None, verify
     return argv
 
 
-def run_cb(binary, datadir, coin, callback, dump=None, start=None, end=None, verify=False, env=None, log=None, **kw):
+TMP_NAMES = {"csvdump": ["blocks.csv.tmp", "transactions.csv.tmp", "tx_in.csv.tmp", "tx_out.csv.tmp"], "unspentcsvdump": ["unspent.csv.tmp"],
+             "balances": ["balances.csv.tmp"]}
+STALE_ROW = "00000000000000000000000000000000000000000000000000000000deadbeef;99999;1;stale-row-of-an-interrupted-earlier-run;1BitcoinEaterAddressDontSendf59kuE\n"
+
+
+def surroundings(datadir, coin, callback, start, end, verify):
+    """Deterministic per (case directory, options): which harmless variation of the surroundings this run gets. Both must not change
+    any result: (a) left-over *.tmp files of an interrupted earlier run of the same callback, longer than most outputs, in the dump
+    folder; (b) -v / -vv (more log lines only)."""
+    key = "%s|%s|%s|%s|%s|%s" % (os.path.basename(os.path.dirname(os.path.abspath(datadir))), coin, callback, start, end, verify)
+    h = zlib.crc32(key.encode())
+    return (h % 3 == 0), (0, 0, 0, 0, 1, 2)[(h >> 8) % 6]
+
+
+def run_cb(binary, datadir, coin, callback, dump=None, start=None, end=None, verify=False, env=None, log=None, vary=True, **kw):
     if dump:
         os.makedirs(dump, exist_ok=True)
     e = dict(env or {})
@@ -35,7 +50,12 @@ def run_cb(binary, datadir, coin, callback, dump=None, start=None, end=None, ver
         e["RBP_VERIF_LOG"] = log
         if os.path.exists(log):
             os.unlink(log)
-    p = run(cli(binary, datadir, coin, callback, dump, start, end, verify), env=e, **kw)
+    plant, verbosity = surroundings(datadir, coin, callback, start, end, verify) if vary and os.environ.get("VERIF_NO_SURROUNDINGS") is None else (False, 0)
+    if plant and dump and not os.listdir(dump):
+        for name in TMP_NAMES.get(callback, []):
+            with open(os.path.join(dump, name), "w") as f:
+                f.write(STALE_ROW * 400)
+    p = run(cli(binary, datadir, coin, callback, dump, start, end, verify, verbosity=verbosity), env=e, **kw)
     if p.timed_out:
         raise Inconclusive("watchdog fired for %s" % callback)
     if "LockError" in (p.err or "") or "LockError" in (p.out or ""):
